@@ -255,7 +255,13 @@ func one(v variant) {
 	}
 	c, err := tun.Start(x.s, cfg())
 	if err != nil {
-		r.Violate("connect.failed", attrs, cs(nil), "connect failed: %v", err)
+		// the connect exchange has 15 ms: on a stalled machine it can time out; that is
+		// no statement about Close — the execution is not judged
+		r.Inconclusive(fmt.Sprintf("%s: the initial connect failed (%v); execution skipped", sig, err))
+		nConnectFailed++
+		if nConnectFailed > 40 {
+			r.Violate("connect.failed", attrs, cs(nil), "the initial connect over a healthy in-memory link failed %d times: %v", nConnectFailed, err)
+		}
 		return
 	}
 	x.c = c
@@ -374,11 +380,14 @@ func one(v variant) {
 			}
 		case <-time.After(hang):
 			r.Violate("close.hang", attrs, cs(map[string]interface{}{"goroutines": clipStacks(libGoroutines())}), "[%s] Close did not return within %v", sig, hang)
-			can.Stop()
 			return
 		}
 	}
-	stall := can.Stop()
+	defer can.Stop()
+	// the canary keeps running to the end of the execution: every bound below reads
+	// the worst stall since the measurement started
+	stallSince := func(t time.Time) time.Duration { can.Settle(); return can.StallSince(t) }
+	stall := stallSince(t0)
 	if ms := float64(worst) / 1e6; ms > closeDur[sc.name] {
 		closeDur[sc.name] = ms
 	}
@@ -392,7 +401,7 @@ func one(v variant) {
 	go func() { c.T.Close(); close(done2) }()
 	select {
 	case <-done2:
-		if d := time.Since(t1); d > T+3*stall+20*time.Millisecond {
+		if d := time.Since(t1); d > T+20*time.Millisecond && d > T+3*stallSince(t1)+20*time.Millisecond {
 			r.Violate("close.second-slow", attrs, cs(nil), "[%s] a second Close took %v", sig, d)
 		}
 	case <-time.After(hang):
@@ -429,7 +438,7 @@ func one(v variant) {
 		if err == nil {
 			r.Violate("close.send-succeeded", attrs, cs(nil), "[%s] Send after Close reported success", sig)
 		}
-		if d := time.Since(t2); d > T+3*stall+20*time.Millisecond {
+		if d := time.Since(t2); d > T+20*time.Millisecond && d > T+3*stallSince(t2)+20*time.Millisecond {
 			r.Violate("close.send-slow", attrs, cs(nil), "[%s] Send after Close took %v to fail", sig, d)
 		}
 	case <-time.After(hang):
@@ -446,7 +455,7 @@ func one(v variant) {
 		return
 	}
 	// goroutine census: everything the tunnel started has exited
-	rem := mon.WaitNoLibGoroutines(T+R+200*time.Millisecond+3*stall, nil, "vapourismo/knx-go/knx.")
+	rem := mon.WaitNoLibGoroutines(T+R+500*time.Millisecond+3*stall, nil, "vapourismo/knx-go/knx.")
 	if len(rem) > 0 {
 		if int64(len(rem)) > nCensusMax {
 			nCensusMax = int64(len(rem))
@@ -509,7 +518,7 @@ func closeStress(n int, seed int64) {
 	r.DistinctStr(fmt.Sprintf("close-stress n=%d", n))
 }
 
-var nStress int64
+var nStress, nConnectFailed int64
 
 func firstLibFrame(stack string) string {
 	for _, l := range strings.Split(stack, "\n") {
